@@ -121,3 +121,39 @@ def regression_strings():
 
     path = os.path.join(os.path.dirname(os.path.dirname(os.path.abspath(__file__))), "corpus", "strings.json")
     return [x for x in json.load(open(path, encoding="utf-8")) if isinstance(x, str)] if os.path.exists(path) else []
+
+
+def mined_keys():
+    """condition keys that occur as literals in ahbicht's own source (candidates for special treatment somewhere): generators mix them into
+    their key pools so that a rule which singles out particular keys is exercised"""
+    import ast
+    import os
+
+    root = os.path.join(os.environ.get("VERIF_REPO", "/repo"), "src", "ahbicht")
+    found = set()
+    for dp, _dn, fns in os.walk(root):
+        for fn in fns:
+            if not fn.endswith(".py"):
+                continue
+            try:
+                import warnings
+
+                with warnings.catch_warnings():
+                    warnings.simplefilter("ignore")
+                    tree = ast.parse(open(os.path.join(dp, fn), encoding="utf-8").read())
+            except (SyntaxError, OSError):
+                continue
+            for x in ast.walk(tree):
+                if isinstance(x, ast.Constant):
+                    v = x.value
+                    if isinstance(v, bool):
+                        continue
+                    if isinstance(v, int) and 1 <= v <= 2499:
+                        found.add(str(v))
+                    elif isinstance(v, str):
+                        import re
+
+                        for m in re.findall(r"(?<![0-9A-Za-z_.])([1-9][0-9]{0,3})(?![0-9A-Za-z_.])", v):
+                            if 1 <= int(m) <= 2499:
+                                found.add(m)
+    return sorted(found, key=int)
